@@ -812,7 +812,11 @@ struct Run {
         bool t = ran.count(s->name) || pOwn[s->name] != N || pRun[s->name] != N || pFail[s->name] != N;
         if (!s->phony && recs.count(s->name) && recs[s->name].status != Rec::Ok) t = true;
         std::vector<const Stmt*> al;
-        for (auto& i : effectiveInputs(*s, &al)) {
+        std::vector<std::string> deps = effectiveInputs(*s, &al);
+        // ... a discovered input with a producer (an order-only input named by the depfile) is an input like any other here
+        if (!s->phony && recs.count(s->name))
+          for (auto& d : recs[s->name].discovered) deps.push_back(d);
+        for (auto& i : deps) {
           const Stmt* ip = man.producer(i);
           if (ip && touchedInFailing.count(ip->name)) t = true;
         }
@@ -836,6 +840,7 @@ struct Run {
         // the same for an ordinary producer this invocation reached and did not leave as it was: its stored result went to
         // "failed"/"skipped" and will come back; the engine compares epochs, so a consumer outside the targets re-runs
         // (if it cannot be brought up to date by timestamps) although the files it reads are the same again
+        for (auto& d : recs[st.name].discovered) eff.push_back(d);
         for (auto& i : eff) {
           const Stmt* ip = man.producer(i);
           if (!ip || !reached.count(ip->name)) continue;
